@@ -878,8 +878,13 @@ func checkC16(e *Engine, r *Report) {
 					if paramIndex(callArgs(h)[0]) != 1 {
 						continue
 					}
-					// the tested id is an element of the closest group returned by ClosestNodes(added, DRAM, has CPUs)
-					if cc := elemSourceCall(variadicSingle(callArgs(h)[1])); cc != nil && callObj(cc.Common()) != nil && callObj(cc.Common()).Name() == "ClosestNodes" {
+					// the tested id is ONE element of the closest group returned by ClosestNodes(added, DRAM, has CPUs): membership of
+					// any single closest node attaches the special node (IDSet.Has with several ids means "all of them")
+					one := variadicSingle(callArgs(h)[1])
+					if one == callArgs(h)[1] {
+						continue
+					}
+					if cc := elemSourceCall(one); cc != nil && callObj(cc.Common()) != nil && callObj(cc.Common()).Name() == "ClosestNodes" {
 						a := callArgs(cc)
 						fl := sliceLiteralElems(a[2])
 						if len(a) >= 3 && (a[1] == added || sameValue(a[1], added)) && len(fl) == 2 && filterName(fl[0]) == "NodeOfDRAMType" && filterName(fl[1]) == "NodeHasLocalCPUs" {
@@ -896,7 +901,7 @@ func checkC16(e *Engine, r *Report) {
 					okAllSp = false
 				}
 			})
-			r.Check("R2:special-mem-by-closest-dram", "R2 memory attachment", "a CPU-less PMEM/HBM node is attached only when one of its closest CPU-bearing DRAM nodes is among the pool's nodes, and it is the filtered node itself that is attached", e.Pos(special.Pos()), special, okAllSp && nSp >= 2, fmt.Sprintf("%d attach sites", nSp), true)
+			r.Check("R2:special-mem-by-closest-dram", "R2 memory attachment", "a CPU-less PMEM/HBM node is attached when (any single) one of its closest CPU-bearing DRAM nodes is among the pool's nodes, and it is the filtered node itself that is attached", e.Pos(special.Pos()), special, okAllSp && nSp >= 2, fmt.Sprintf("%d attach sites", nSp), true)
 			// the filters
 			for _, kind := range []string{"NodeOfPMEMType", "NodeOfHBMType"} {
 				ok := false
